@@ -1,2 +1,158 @@
-(* C03 - placeholder statements are added by Proofs/Kernel*.v; see below. *)
-From EpyV Require Import Model.Kernel.
+(* C03 - simulation time never runs backwards and all clocks agree (Model/Kernel.v: both scheduler
+   loops over arbitrary user programs).  Statements only; the proofs are in Proofs/Kernel*.v.
+
+   Vocabulary (defined in Proofs/KernelTime.v, Proofs/KernelBase.v):
+     ht o            the OHandler / OTap records of an output, in order
+     paired_fwd l    l is handler, tap, handler, tap, ... where every pair has the shape
+                       OHandler k t t e m :: OTap t p name e
+                     (handler argument = clock read inside the handler = tap time, same element;
+                     name is NPost k when m = None (posted event) and NEv p j otherwise)
+     obs_times o     the times of the OHandler / OTap records, in order
+     ntaps, nhandlers  numbers of OTap / OHandler records
+     hrec x          OHandler (e_prog x) (e_time x) (e_time x) (e_elem x) None
+     stoch_fired / sync_fired   the queue entries popped and fired during the run, in order
+     nonneg_tb tb    every event probability / rate ev_p of the table is >= 0
+   Hypotheses: only nonneg_tb and "every oracle value ln(1/r1) is >= 0", and only where needed. *)
+From Coq Require Import List ZArith QArith Qabs Bool Arith Lia Lqa Sorted.
+From EpyV Require Import Model.Kernel Proofs.KernelBase Proofs.KernelLoops Proofs.KernelQueue
+  Proofs.KernelFire Proofs.KernelTime Proofs.KernelResults.
+Import ListNotations.
+Open Scope Q_scope.
+
+(* ---- C03_agree: one tap per executed event, carrying the handler's time and element; the time
+   passed to the handler is the clock the handler reads.  No hypothesis, also for stuck runs. *)
+Theorem C03_agree_stoch : forall W (tb : table W) pf fuel rs ls ds,
+  paired_fwd (ht (r_out (stoch_run tb pf fuel rs ls ds))).
+Proof.
+  intros. rewrite (proj1 (stoch_fields tb pf fuel rs ls ds)). unfold ht. rewrite filter_rev'.
+  apply paired_rev. exact (proj1 (stoch_count tb pf fuel rs ls ds)).
+Qed.
+
+Theorem C03_agree_sync : forall W (tb : table W) pf fuel rs ds,
+  paired_fwd (ht (r_out (sync_run tb pf fuel rs ds))).
+Proof.
+  intros. rewrite (proj1 (sync_fields tb pf fuel rs ds)). unfold ht. rewrite filter_rev'.
+  apply paired_rev. exact (proj1 (sync_count tb pf fuel rs ds)).
+Qed.
+
+Theorem C03_handler_clock_stoch : forall W (tb : table W) pf fuel rs ls ds k targ clk e m,
+  In (OHandler k targ clk e m) (r_out (stoch_run tb pf fuel rs ls ds)) -> targ = clk /\ targ == clk.
+Proof.
+  intros W tb pf fuel rs ls ds k targ clk e m H.
+  assert (E : targ = clk); [|split; [exact E|rewrite E; reflexivity]].
+  exact (paired_fwd_handler _ k targ clk e m (C03_agree_stoch W tb pf fuel rs ls ds) (in_ht _ _ H eq_refl)).
+Qed.
+
+Theorem C03_handler_clock_sync : forall W (tb : table W) pf fuel rs ds k targ clk e m,
+  In (OHandler k targ clk e m) (r_out (sync_run tb pf fuel rs ds)) -> targ = clk /\ targ == clk.
+Proof.
+  intros W tb pf fuel rs ds k targ clk e m H.
+  assert (E : targ = clk); [|split; [exact E|rewrite E; reflexivity]].
+  exact (paired_fwd_handler _ k targ clk e m (C03_agree_sync W tb pf fuel rs ds) (in_ht _ _ H eq_refl)).
+Qed.
+
+(* ---- C03_count: EVENTS = number of taps = number of handler calls.  No hypothesis. *)
+Theorem C03_count_stoch : forall W (tb : table W) pf fuel rs ls ds,
+  let r := stoch_run tb pf fuel rs ls ds in
+  r_events r = ntaps (r_out r) /\ ntaps (r_out r) = nhandlers (r_out r).
+Proof.
+  intros W tb pf fuel rs ls ds. cbv zeta. rewrite (proj1 (stoch_fields tb pf fuel rs ls ds)), ntaps_rev, nhandlers_rev.
+  destruct (stoch_count tb pf fuel rs ls ds) as [P C]. split; [exact C|exact (paired_nhandlers _ P)].
+Qed.
+
+Theorem C03_count_sync : forall W (tb : table W) pf fuel rs ds,
+  let r := sync_run tb pf fuel rs ds in
+  r_events r = ntaps (r_out r) /\ ntaps (r_out r) = nhandlers (r_out r).
+Proof.
+  intros W tb pf fuel rs ds. cbv zeta. rewrite (proj1 (sync_fields tb pf fuel rs ds)), ntaps_rev, nhandlers_rev.
+  destruct (sync_count tb pf fuel rs ds) as [P C]. split; [exact C|exact (paired_nhandlers _ P)].
+Qed.
+
+(* ---- C03_monotone: handler and tap times never decrease (in a run that did not exhaust its
+   fuel or oracle: once stuck the model keeps looping on default values) *)
+Theorem C03_monotone_stoch : forall W (tb : table W) pf fuel rs ls ds,
+  nonneg_tb tb -> Forall (Qle 0) ls ->
+  let r := stoch_run tb pf fuel rs ls ds in
+  r_stuck r = false ->
+  StronglySorted Qle (obs_times (r_out r)) /\
+  StronglySorted Qle (map time_of (filter is_handler (r_out r))) /\
+  StronglySorted Qle (map time_of (filter is_tap (r_out r))).
+Proof.
+  intros W tb pf fuel rs ls ds Hnn Hl. cbv zeta. intros Hs.
+  assert (H : StronglySorted Qle (obs_times (r_out (stoch_run tb pf fuel rs ls ds)))).
+  { rewrite (proj1 (stoch_fields tb pf fuel rs ls ds)), obs_times_rev.
+    exact (proj1 (desc_rev _ _ (t_desc _ _ _ _ (stoch_tinv tb pf fuel rs ls ds Hnn Hl Hs)))). }
+  split; [exact H|exact (handler_times_sorted _ H)].
+Qed.
+
+Theorem C03_monotone_sync : forall W (tb : table W) pf fuel rs ds,
+  let r := sync_run tb pf fuel rs ds in
+  r_stuck r = false ->
+  StronglySorted Qle (obs_times (r_out r)) /\
+  StronglySorted Qle (map time_of (filter is_handler (r_out r))) /\
+  StronglySorted Qle (map time_of (filter is_tap (r_out r))).
+Proof.
+  intros W tb pf fuel rs ds. cbv zeta. intros Hs.
+  assert (H : StronglySorted Qle (obs_times (r_out (sync_run tb pf fuel rs ds)))).
+  { rewrite (proj1 (sync_fields tb pf fuel rs ds)), obs_times_rev.
+    destruct (sync_tinv tb pf fuel rs ds Hs) as [L [_ T]].
+    exact (proj1 (desc_rev _ _ (t_desc _ _ _ _ T))). }
+  split; [exact H|exact (handler_times_sorted _ H)].
+Qed.
+
+(* ---- C03_end: no event later than the reported end time *)
+Theorem C03_end_stoch : forall W (tb : table W) pf fuel rs ls ds,
+  nonneg_tb tb -> Forall (Qle 0) ls ->
+  let r := stoch_run tb pf fuel rs ls ds in
+  r_stuck r = false -> Forall (fun t => t <= r_time r) (obs_times (r_out r)).
+Proof.
+  intros W tb pf fuel rs ls ds Hnn Hl. cbv zeta. intros Hs.
+  rewrite (proj1 (stoch_fields tb pf fuel rs ls ds)), obs_times_rev. apply Forall_rev'.
+  exact (proj2 (desc_rev _ _ (t_desc _ _ _ _ (stoch_tinv tb pf fuel rs ls ds Hnn Hl Hs)))).
+Qed.
+
+(* synchronous: TIME is 1 + the number m of steps executed; steps 1 .. m were all before the
+   maximum time; the loop stopped because the maximum time was reached or the process' own
+   equilibrium test held; every event happened by step m = TIME - 1 *)
+Theorem C03_end_sync : forall W (tb : table W) pf fuel rs ds,
+  let r := sync_run tb pf fuel rs ds in
+  r_stuck r = false ->
+  Forall (fun t => t + 1 <= r_time r) (obs_times (r_out r)) /\
+  exists m : nat, r_time r == 1 + inject_Z (Z.of_nat m) /\
+    (t_maxtime tb <= r_time r \/ t_equil tb (loci (r_final r)) (world (r_final r)) = true) /\
+    (forall j : nat, (j < m)%nat -> 1 + inject_Z (Z.of_nat j) < t_maxtime tb).
+Proof.
+  intros W tb pf fuel rs ds. cbv zeta. intros Hs. split.
+  - rewrite (proj1 (sync_fields tb pf fuel rs ds)), obs_times_rev. apply Forall_rev'.
+    destruct (sync_tinv tb pf fuel rs ds Hs) as [L [HL T]].
+    eapply Forall_impl; [|exact (proj2 (desc_rev _ _ (t_desc _ _ _ _ T)))]. cbn. intros a Ha. rewrite <- HL. lra.
+  - destruct (sync_time tb pf fuel rs ds) as [m [_ [Ht [He Hj]]]]. exists m. split; [exact Ht|split].
+    + specialize (He Hs). unfold at_end in He. apply orb_true_iff in He.
+      destruct He as [He|He]; [left; apply Qle_bool_iff, He|right; exact He].
+    + intros j Hlt. apply Qle_bool_false. apply Hj, Hlt.
+Qed.
+
+(* ---- posted events: the handler records with member None are exactly, in order, those of the
+   queue entries fired, each with the entry's own time as argument and as clock; and an entry's
+   time is the time that was given to postEvent (the OPosted record the user saw) *)
+Theorem C03_posted_stoch : forall W (tb : table W) pf fuel rs ls ds,
+  let r := stoch_run tb pf fuel rs ls ds in
+  filter is_ph (r_out r) = map hrec (stoch_fired tb pf fuel rs ls ds) /\
+  forall i tt x, In (OPosted i tt) (r_out r) -> In x (stoch_fired tb pf fuel rs ls ds) -> e_id x = i ->
+    e_time x = tt /\ In (OHandler (e_prog x) tt tt (e_elem x) None) (r_out r).
+Proof.
+  intros W tb pf fuel rs ls ds. cbv zeta.
+  pose proof (stoch_run_ginv tb pf fuel rs ls ds) as G. rewrite (proj1 (stoch_fields tb pf fuel rs ls ds)).
+  split; [exact (ph_rev _ _ (g_hrec _ _ _ _ _ G))|]. intros i tt x. exact (ginv_posted_fired _ _ i tt x G).
+Qed.
+
+Theorem C03_posted_sync : forall W (tb : table W) pf fuel rs ds,
+  let r := sync_run tb pf fuel rs ds in
+  filter is_ph (r_out r) = map hrec (sync_fired tb pf fuel rs ds) /\
+  forall i tt x, In (OPosted i tt) (r_out r) -> In x (sync_fired tb pf fuel rs ds) -> e_id x = i ->
+    e_time x = tt /\ In (OHandler (e_prog x) tt tt (e_elem x) None) (r_out r).
+Proof.
+  intros W tb pf fuel rs ds. cbv zeta.
+  pose proof (sync_run_ginv tb pf fuel rs ds) as G. rewrite (proj1 (sync_fields tb pf fuel rs ds)).
+  split; [exact (ph_rev _ _ (g_hrec _ _ _ _ _ G))|]. intros i tt x. exact (ginv_posted_fired _ _ i tt x G).
+Qed.
